@@ -35,7 +35,7 @@ def replay(ctx, path):
 
 META = {
     "engine": "coq+absdump",
-    "technique": "Coq model of abi.rs + wit-parser flattening proved exact and equal to the spec's flatten (induction over types, bounded-buffer merge lemma); token-for-token correspondence of real instruction streams with the extracted model; Coq-extracted interpreter + canonical-ABI oracle evaluate the value-level statement on every real stream",
-    "text": "Theorems (all types, all bounds, pw 4 and 8): flat_types = ideal flattening iff it fits, and = the canonical flatten; every size, alignment, field offset and payload offset the generator uses = the canonical layout at both widths. The Coq model of the generator reproduces every real instruction stream explored token for token (lower_flat / lower_to_memory / lift_from_memory, element-wise and canonical list paths, and the flat lift and offset-carrying paths through call); the value-level statement (stream under Sem = Spec.lower_flat / Spec.store; lifting Spec's encoding returns the value) is executed on the real streams for random values incl. NaN payloads, extremes, empty lists, every variant case.",
-    "note": "Proved part: flattening and memory layout (partial w.r.t. the full C01 statement, see Props/C01.v header). Trusted: Coq kernel; Spec.v as transcription of the spec; Sem.v as the instruction contract; extraction + ocaml/abi_driver.ml (printer/parser of the dump grammar, value generator); absdump's recording Bindgen.",
+    "technique": "Coq model of abi.rs + wit-parser flattening proved exact and equal to the spec's flatten (induction over types, bounded-buffer merge lemma); Hoare-style proofs over the generator's state monad that lower/write/lift/read reach no panic site and keep the operand-stack discipline for every type (flat lowering yields exactly |flatten(t)| values, flat lifting consumes exactly that many); token-for-token correspondence of real instruction streams with the extracted model; Coq-extracted interpreter + canonical-ABI oracle evaluate the value-level statement on every real stream",
+    "text": "Theorems (all types, all bounds, pw 4 and 8): flat_types = ideal flattening iff it fits, and = the canonical flatten; the generator's four traversals never panic and obey the stack discipline (memory lowering consumes its operand, memory lifting produces one, flat lowering of a fitting type leaves exactly length(flatten pw t) core values incl. every variant arm after bitcasts and zero padding, flat lifting of a well-formed fitting type consumes exactly that many); every size, alignment, field offset and payload offset the generator uses = the canonical layout at both widths. The Coq model of the generator reproduces every real instruction stream explored token for token (lower_flat / lower_to_memory / lift_from_memory, element-wise and canonical list paths, and the flat lift and offset-carrying paths through call); the value-level statement (stream under Sem = Spec.lower_flat / Spec.store; lifting Spec's encoding returns the value) is executed on the real streams for random values incl. NaN payloads, extremes, empty lists, every variant case.",
+    "note": "Proved part: flattening, memory layout, and panic freedom / stack discipline of lower, write, lift, read (partial w.r.t. the full C01 statement, see Props/C01.v header). Trusted: Coq kernel; Spec.v as transcription of the spec; Sem.v as the instruction contract; extraction + ocaml/abi_driver.ml (printer/parser of the dump grammar, value generator); absdump's recording Bindgen.",
 }
